@@ -20,7 +20,8 @@ use rustc_middle::ty::{self, Instance, Ty, TyCtxt, TypingEnv};
 use rustc_span::{ExpnKind, MacroKind, Span};
 use std::fmt::Write as _;
 
-const VERSION: &str = "zkfacts-7";
+const VERSION: &str = "zkfacts-8";
+const WORKSPACE_CRATES: [&str; 5] = ["rln", "zerokit_utils", "rln_cli", "rln_wasm", "zkfix"];
 
 fn esc(s: &str) -> String {
     let mut o = String::with_capacity(s.len() + 2);
@@ -72,11 +73,18 @@ struct Cx<'tcx> {
 
 impl<'tcx> Cx<'tcx> {
     fn path(&self, did: DefId) -> String {
-        let s = ty::print::with_no_trimmed_paths!(self.tcx.def_path_str(did));
         if did.is_local() {
-            format!("{}::{}", self.krate, s)
+            let s = ty::print::with_no_trimmed_paths!(self.tcx.def_path_str(did));
+            return format!("{}::{}", self.krate, s);
+        }
+        // items of other workspace crates: print the defining path, not a re-export path, so that
+        // the same function has one name in every crate's facts
+        let cn = self.tcx.crate_name(did.krate);
+        let cn = cn.as_str();
+        if WORKSPACE_CRATES.contains(&cn) {
+            ty::print::with_no_visible_paths!(ty::print::with_no_trimmed_paths!(self.tcx.def_path_str(did)))
         } else {
-            s
+            ty::print::with_no_trimmed_paths!(self.tcx.def_path_str(did))
         }
     }
 
